@@ -131,3 +131,14 @@ Proof. unfold enc_opt. rewrite !map_map. apply map_ext. intros [r|]; reflexivity
 Lemma cast_i32_map (f : R -> R) (g : Z -> Z) zs :
   (forall z, IZR (g z) = f (IZR z)) -> cast_i32 (map g zs) = map (option_map f) (cast_i32 zs).
 Proof. intros H. unfold cast_i32. rewrite !map_map. apply map_ext. intros z. cbn. rewrite H. reflexivity. Qed.
+
+(* positions of the Option rendering *)
+Lemma enc_opt_nth_null xs i : nth_error (enc_opt xs) i = Some None <-> nth_error xs i = Some None.
+Proof.
+  unfold enc_opt. rewrite nth_error_map. destruct (nth_error xs i) as [[r|]|]; cbn [option_map]; split; intros H; try discriminate; reflexivity.
+Qed.
+Lemma enc_opt_nth_valid xs i x : nth_error (enc_opt xs) i = Some (Some (Some x)) -> nth_error xs i = Some (Some x).
+Proof.
+  unfold enc_opt. rewrite nth_error_map. destruct (nth_error xs i) as [[r|]|]; cbn [option_map]; intros H; try discriminate.
+  injection H as ->. reflexivity.
+Qed.
